@@ -158,6 +158,13 @@ HandOver(s, a, b) ==           \* _exchange_velocity: the same list / Time objec
     /\ op' = [name |-> "hand_over", slot |-> s, unit |-> a, to |-> b]
     /\ UNCHANGED <<store, next, gpos, gdict, lifted>>
 
+Share(s, a, b) ==              \* b.velocity = a.velocity; b.time_stamp = a.time_stamp  (plain assignment: both units hold the same objects)
+    /\ Live(s) /\ a \in DOMAIN br[s].f /\ b \in DOMAIN br[s].f /\ a # b
+    /\ br[s].f[a][2] # NoRef
+    /\ br' = [br EXCEPT ![s].f[b] = <<@[1], br[s].f[a][2], br[s].f[a][3]>>]
+    /\ op' = [name |-> "share", slot |-> s, unit |-> a, to |-> b]
+    /\ UNCHANGED <<store, next, gpos, gdict, lifted>>
+
 (* insert_into_global_state: references are stored; TreeLiftingState.set / _delete maintain the index *)
 Insert(s) ==
     /\ Live(s)
@@ -182,7 +189,7 @@ Next == \/ \E s \in 1 .. Slots, u \in Units : Extract(s, u)
         \/ \E s \in 1 .. Slots, u \in Units, val \in TsVals : MutateTs(s, u, val)
         \/ \E s \in 1 .. Slots, u \in Units, v \in VelVals, t \in TsVals : Activate(s, u, v, t)
         \/ \E s \in 1 .. Slots, u \in Units : Deactivate(s, u)
-        \/ \E s \in 1 .. Slots, a \in Units, b \in Units : HandOver(s, a, b)
+        \/ \E s \in 1 .. Slots, a \in Units, b \in Units : HandOver(s, a, b) \/ Share(s, a, b)
         \/ \E s \in 1 .. Slots : Insert(s) \/ Drop(s)
 
 vars == <<store, next, gpos, gdict, lifted, br, op>>
@@ -202,7 +209,7 @@ NoSharing == \A s \in 1 .. Slots : Live(s) =>
 IndexConsistent == lifted = {u \in Units : gdict[u][1] # NoRef}
 StampIffVelocity == \A u \in Units : (gdict[u][1] = NoRef) <=> (gdict[u][2] = NoRef)
 (* action properties *)
-IsMutation == op'.name \in {"mutate_pos", "mutate_vel", "mutate_ts", "rebind_pos", "activate", "deactivate", "hand_over", "drop"}
+IsMutation == op'.name \in {"mutate_pos", "mutate_vel", "mutate_ts", "rebind_pos", "activate", "deactivate", "hand_over", "share", "drop"}
 Isolation == [][IsMutation => /\ GlobalValue(store', gpos', gdict') = GV
                                 /\ \A t \in 1 .. Slots : (Live(t) /\ t # op'.slot) => BranchValue(store', br'[t]) = BranchValue(store, br[t])]_vars
 ExtractCurrent == [][op'.name = "extract" => /\ GlobalValue(store', gpos', gdict') = GV
